@@ -255,6 +255,51 @@ def case_perpendicular_3d(ctx):
     ctx.require("is_perpendicular-3d:iff-dot-product-zero", ctx.iff(ctx.truth(r), ctx.is_zero(sum(u[i] * v[i] for i in range(3)))))
 
 
+def mk_perpendicular_3d_one_free(k):
+    """as perpendicular_3d with a direction v that has one free real component"""
+    CONF = [((10, 10, 10), (1, -1, 0), (None, 1, -2)), ((0, 0, 0), (2, 1, -1), (1, None, 3)), ((1, -2, 3), (0, 1, 1), (2, 1, None))]
+
+    def case(ctx):
+        from geometer import Point, Line, is_perpendicular
+        A, u, v3 = CONF[k]
+        s_ = ctx.real("s")
+        v = [s_ if x is None else x for x in v3]
+        ctx.assume(ctx.neg(R.proportional(ctx, list(u), v)))
+        l = Line(Point(*[float(x) for x in A]), Point(*[float(A[i] + u[i]) for i in range(3)]))
+        m = Line(Point(*[float(x) for x in A]), Point(mk_array(ctx, [A[i] + v[i] for i in range(3)] + [1])))
+        r = is_perpendicular(l, m)
+        ctx.require("is_perpendicular-3d:iff-dot-product-zero", ctx.iff(ctx.truth(r), ctx.is_zero(sum(u[i] * v[i] for i in range(3)))))
+    return case
+
+
+def mk_line3d_constructions(k):
+    """lattice line of 3-space, point with one free coordinate off the line: perpendicular(p) passes through p, meets the line at right angles; project(p) is that foot"""
+    CONF = [((0, 0, 0), (1, 0, 0), (None, 2, 1)), ((1, 2, -1), (1, -1, 2), (3, None, 0)), ((0, 1, 0), (2, 2, 1), (1, 1, None))]
+
+    def case(ctx):
+        from geometer import Point, Line
+        if ctx.symbolic:
+            from symgeo import symnp
+            symnp.SVD_RANK["rank"] = 2      # a line of 3-space: rank-2 tensor, two-dimensional kernel (assumption of the SVD contract stub)
+        A, u, p3 = CONF[k]
+        s_ = ctx.real("s")
+        p = [s_ if x is None else x for x in p3]
+        ap = [p[i] - A[i] for i in range(3)]
+        # p off the line
+        ctx.assume(ctx.neg(R.proportional(ctx, list(u), ap)))
+        L = Line(Point(*[float(x) for x in A]), Point(*[float(A[i] + u[i]) for i in range(3)]))
+        P = Point(mk_array(ctx, p + [1]))
+        uu = sum(x * x for x in u)
+        t = sum(ap[i] * u[i] for i in range(3))
+        foot = [uu * A[i] + t * u[i] for i in range(3)] + [uu]          # homogeneous foot of the perpendicular
+        f = L.project(P)
+        ctx.require("line3d:project-is-the-foot", R.proportional(ctx, E(f), foot))
+        m = L.perpendicular(P)
+        ctx.require("line3d:perpendicular-contains-p", ctx.truth(m.contains(P)))
+        ctx.require("line3d:perpendicular-contains-the-foot", ctx.truth(m.contains(Point(mk_array(ctx, foot)))))
+    return case
+
+
 def case_perpendicular_3d_lattice(ctx):
     """lattice lines through (10,10,10) in the tilted plane x+y+z=30 (offset larger than every normal component)"""
     from geometer import Point, Line, is_perpendicular
@@ -285,4 +330,7 @@ def cases(tier, seed):
     add("collinear4_collections", case_collinear4_collections, tiers=Q, max_paths=2000)
     add("perpendicular_3d_lattice", case_perpendicular_3d_lattice, tiers=Q, max_paths=2000)
     add("perpendicular_3d", case_perpendicular_3d, tiers=T, max_paths=2000)
+    for k in range(3):
+        add(f"perpendicular_3d_one_free{k}", mk_perpendicular_3d_one_free(k), tiers=Q if k == 0 else ("attempt",), max_paths=2000)
+        add(f"line3d_constructions{k}", mk_line3d_constructions(k), tiers=("attempt",), max_paths=2000)
     return cs
